@@ -339,6 +339,54 @@ fn main() {
         for e in res { ctx.violation("binary_differs_from_inprocess", e.clone(), json!({"kind":"proc"}), e); }
     }
 
+    // words in text variables, through the command-line pipeline (stdin document -> zerv version): values that mean something
+    // to git, to a CI system or to a configuration language (HEAD, refs/heads/..., origin/..., none, null, true, ~, *) are text
+    // like any other - a set variable contributes its sanitised value wherever the schema prints it. Judged by R-REN on the
+    // document's own variables (the only normalisation the pipeline is documented to do is epoch 0 -> unset).
+    let mut s_words = Stats::default();
+    {
+        let words = ["HEAD", "head", "Head", "main", "master", "trunk", "refs/heads/main", "refs/heads/HEAD", "refs/remotes/origin/main", "refs/remotes/origin/HEAD", "origin/main", "origin/HEAD", "origin/origin/x", "refs/heads/origin/x",
+            "refs/tags/v1.0.0", "refs/pull/12/merge", "heads/main", "remotes/origin/main", "(no branch)", "(HEAD detached at 1a2b3c4)", "detached", "none", "None", "null", "NULL", "nil", "true", "false", "yes", "no", "on", "off", "~", "*", "-", "0", "00", "undefined",
+            "unknown", "default", "latest", "v1.2.3", "1.2.3", "tags/v1", "feature/HEAD", "HEADS", "dependabot/cargo/serde-1.0.200", "renovate/main-deps", "gh-readonly-queue/main/pr-7-abc", "release/1.2.x", "user@host:path", "a b"];
+        let sc = RSchema { core: vec![V(RVar::Major), V(RVar::Minor), V(RVar::Patch)], extra_core: vec![V(RVar::BumpedBranch), V(RVar::Post), V(RVar::LastBranch)], build: vec![V(RVar::BumpedBranch), V(RVar::Custom("k".into())), V(RVar::BumpedCommitHashShort), V(RVar::LastCommitHash), V(RVar::Distance)] };
+        let cases: Vec<(String, RVars)> = words.iter().flat_map(|w| {
+            let base = RVars { major: Some(1), minor: Some(2), patch: Some(3), post: Some(7), distance: Some(4), dirty: Some(false), custom: json!({}), ..Default::default() };
+            vec![
+                (format!("bumped_branch={w:?}"), RVars { bumped_branch: Some(w.to_string()), ..base.clone() }),
+                (format!("last_branch={w:?}"), RVars { last_branch: Some(w.to_string()), ..base.clone() }),
+                (format!("both branches={w:?}"), RVars { bumped_branch: Some(w.to_string()), last_branch: Some(w.to_string()), ..base.clone() }),
+                (format!("custom.k={w:?}"), RVars { custom: json!({"k": w}), ..base.clone() }),
+                (format!("hashes={w:?}"), RVars { bumped_commit_hash: Some(w.to_string()), last_commit_hash: Some(w.to_string()), ..base.clone() }),
+            ]
+        }).collect();
+        s_words = cases.par_iter().map(|(name, v)| {
+            let mut st = Stats::default();
+            let Ok(z) = bind::zerv(&sc, v) else { machinery_error(&format!("words layer: cannot build {name}")) };
+            let doc = z.to_string();
+            for fmt in ["semver", "pep440"] {
+                st.inc("cli_word_cases");
+                let want = if fmt == "semver" { ren::semver(&sc, v) } else { ren::pep440(&sc, v) };
+                match zv::run_cli(&["version", "--source", "stdin", "--output-format", fmt], Some(&doc)) {
+                    Ok(Res::Ok(g)) if g == want => {}
+                    Err(p) => ctx.violation(&format!("panic@{}", p.file()), format!("words {name} [{fmt}]"), json!({"kind":"cli-words","vars":name}), p.message),
+                    other => ctx.violation("cli_text_value_not_placed", format!("{name} [{fmt}]"), json!({"kind":"cli-words","vars":name,"format":fmt}), format!("zerv version --source stdin printed {other:?}, documented placement gives {want:?}")),
+                }
+                // and as an override on a document that has no branch
+                if name.starts_with("bumped_branch=") {
+                    st.inc("cli_word_cases");
+                    let w = v.bumped_branch.clone().unwrap();
+                    let Ok(z0) = bind::zerv(&sc, &RVars { bumped_branch: None, ..v.clone() }) else { continue };
+                    match zv::run_cli(&["version", "--source", "stdin", "--bumped-branch", &w, "--output-format", fmt], Some(&z0.to_string())) {
+                        Ok(Res::Ok(g)) if g == want => {}
+                        Err(p) => ctx.violation(&format!("panic@{}", p.file()), format!("words --bumped-branch {w:?} [{fmt}]"), json!({"kind":"cli-words","vars":name}), p.message),
+                        other => ctx.violation("cli_text_value_not_placed", format!("--bumped-branch {w:?} [{fmt}]"), json!({"kind":"cli-words","vars":name,"format":fmt}), format!("printed {other:?}, documented placement gives {want:?}")),
+                    }
+                }
+            }
+            st
+        }).reduce(Stats::default, Stats::merge);
+    }
+
     // long sections: 8 .. 1000 components per section in three arrangements - the named variables at the front, at the
     // far end, and spread out between literal and variable fillers; every assignment, both formats. Placement must not
     // depend on how many components precede a component.
@@ -378,14 +426,14 @@ fn main() {
     let (d2, _) = run_space(2, 1, 1);
     if d1.digest != d2.digest { machinery_error("determinism replay diverged"); }
 
-    let all = s1.clone().merge(s2.clone()).merge(s3.clone()).merge(s4.clone()).merge(s_wide).merge(s_grid).merge(s_ts).merge(s_paths).merge(s_long);
+    let all = s1.clone().merge(s2.clone()).merge(s3.clone()).merge(s4.clone()).merge(s_wide).merge(s_grid).merge(s_ts).merge(s_paths).merge(s_long).merge(s_words);
     let mut cov = Coverage::default();
     cov.states = all.get("schemas") * asg.len() as u64 + s3.get("tier_cases") + all.get("grid_values") * 55;
     cov.transitions = all.get("conversions") + s3.get("tier_cli_runs");
     cov.evaluations = all.get("conversions") + s3.get("tier_cli_runs") + s3.get("tier_cases") + s4.get("cli_conformance_cases");
     cov.traces_validated = cov.evaluations;
     cov.distinct_nontrivial = all.get("schemas");
-    cov.rule = format!("valid schemas generated as programs: core sequences over {} components (Major/Minor/Patch order+uniqueness respected, uint/str literals incl. multi-identifier, empty and zero-padded ones, Distance, BumpedBranch, ts, custom), extra_core over {} (Epoch/PreRelease/Post/Dev once each, literals, Dirty, BumpedBranch), build over {}; bounds (core,extra,build) = {} product sizes {n1}+{n2}; each x {} variable assignments x 2 formats, SemVer::from / PEP440::from compared by full string equality with R-REN; sections of 8 .. 1000 (thorough 4097) components, named variables first / last / spread between literal and variable fillers, integer-valued and non-integer fillers in the core; the 16 timestamp patterns x 4 placements x 19 instants (New-Year days whose ISO week belongs to the other year, leap days, month ends, the epoch); 29 custom-variable paths (keys with '/', '~', blanks, digits, non-ASCII; paths into arrays, objects, null and nothing) x 4 placements; smart presets: 6 presets x dirty x distance x pre x post x dev tier table at schema_with_zerv and through the CLI. dense numeric grid: {} values (0..=300, neighbourhoods of 2^8..2^64 and 10^2..10^20 up to u64::MAX) in each numeric variable in turn, all at once, as uint literal, custom number and branch segment x 5 schemas. non-trivial = distinct non-empty schemas", all.get("grid_values"), core_alpha.len(), extra_alpha.len(), build_alpha.len(), if quick { "(3,2,1)" } else { "(4,2,1) and (3,3,2)" }, asg.len());
+    cov.rule = format!("valid schemas generated as programs: core sequences over {} components (Major/Minor/Patch order+uniqueness respected, uint/str literals incl. multi-identifier, empty and zero-padded ones, Distance, BumpedBranch, ts, custom), extra_core over {} (Epoch/PreRelease/Post/Dev once each, literals, Dirty, BumpedBranch), build over {}; bounds (core,extra,build) = {} product sizes {n1}+{n2}; each x {} variable assignments x 2 formats, SemVer::from / PEP440::from compared by full string equality with R-REN; 52 words that mean something to git / CI systems / configuration languages as branch, hash and custom values through `zerv version --source stdin` (and as --bumped-branch), judged by R-REN; sections of 8 .. 1000 (thorough 4097) components, named variables first / last / spread between literal and variable fillers, integer-valued and non-integer fillers in the core; the 16 timestamp patterns x 4 placements x 19 instants (New-Year days whose ISO week belongs to the other year, leap days, month ends, the epoch); 29 custom-variable paths (keys with '/', '~', blanks, digits, non-ASCII; paths into arrays, objects, null and nothing) x 4 placements; smart presets: 6 presets x dirty x distance x pre x post x dev tier table at schema_with_zerv and through the CLI. dense numeric grid: {} values (0..=300, neighbourhoods of 2^8..2^64 and 10^2..10^20 up to u64::MAX) in each numeric variable in turn, all at once, as uint literal, custom number and branch segment x 5 schemas. non-trivial = distinct non-empty schemas", all.get("grid_values"), core_alpha.len(), extra_alpha.len(), build_alpha.len(), if quick { "(3,2,1)" } else { "(4,2,1) and (3,3,2)" }, asg.len());
     cov.exhaustive = true;
     cov.samples = vec![json!({"core":"Major,str(\"1.2\"),Patch","extra_core":"PreRelease,Dirty","build":"str(\"B-1\")","vars":"all_set"}), json!({"preset":"calver","dirty":false,"distance":0,"post":2}), json!({"core":"str(\"007\"),ts(YYYY)","extra_core":"Epoch","build":"","vars":"zeros"})];
     cov.set("clause_counts", all.to_json());
